@@ -10,6 +10,26 @@ From Gen Require Import Leaf_gen.
 Import ListNotations.
 #[local] Open Scope Z_scope.
 
+Ltac split_ifs :=
+  repeat match goal with
+         | |- context [if ?c then _ else _] =>
+             lazymatch c with
+             | context [if _ then _ else _] => fail
+             | _ => destruct c eqn:?
+             end
+         end.
+(* comparisons written the other way round in the source leave contradictory branch combinations *)
+Ltac bool_hyps :=
+  repeat match goal with
+         | H : (_ <? _) = true |- _ => apply Z.ltb_lt in H
+         | H : (_ <? _) = false |- _ => apply Z.ltb_ge in H
+         | H : (_ <=? _) = true |- _ => apply Z.leb_le in H
+         | H : (_ <=? _) = false |- _ => apply Z.leb_gt in H
+         | H : (_ =? _) = true |- _ => apply Z.eqb_eq in H
+         | H : (_ =? _) = false |- _ => apply Z.eqb_neq in H
+         end.
+Ltac absurd_branch := exfalso; bool_hyps; lia.
+
 (* result of PerformChecking for a concurrency rule: pass (0,0) / blocked with the reported
    concurrency (2, live+1) *)
 Lemma hotspot_concurrency_check_ok r m k :
@@ -21,9 +41,7 @@ Proof.
   cbv zeta. unfold hotspot_concurrency_check, conc_check, tok_count, lru_add_if_absent.
   destruct (lru_find k (m_conc m)) as [cur|] eqn:Ef; cbn [opt_some opt_z];
   destruct (alookup k (r_spec r)) as [sv|] eqn:Es; cbn [opt_some opt_z];
-  repeat match goal with
-         | |- context [if (?a <=? ?b) then _ else _] => destruct (a <=? b) eqn:?
-         end; cbn [snd dec_code]; try reflexivity.
+  cbv zeta; cbn [negb]; split_ifs; cbn [snd dec_code negb]; try reflexivity; absurd_branch.
 Qed.
 
 (* the state after the check: the cell cache after AddIfAbsent(arg, &0), nothing else *)
